@@ -910,9 +910,6 @@ def gen_ru_cases(rng, exes, quick, cases):
             if K >= 10 and (op in ("exp_mod", "inv_mod", "gcd") or quick and op.startswith("op")):
                 continue
             for idx in partitions(n, dests):
-                if (op == "exp_mod" and idx[0] == idx[3]) or (op == "inv_mod" and idx[0] == idx[2]):
-                    continue       # exp_mod(a, b, c, a): the modulus is overwritten by the accumulator and the next reduction
-                                   # divides by zero (SIGFPE kills the harness); recorded in frag/C15.design.md, not run
                 for rep in range(reps if K <= 8 else max(1, reps // 3)):
                     x = None
                     if sk == "bit":
@@ -1132,6 +1129,15 @@ def main(tier, replay=None):
         d.update({"exe": c.exe, "dests": c.dests, "reads": c.reads})
         if i % 4999 == 0:
             s = dict(d); s["impl"] = outs[i]; chk.sample(s)
+        if po is None and " CRASH " in outs[i]:
+            sig = outs[i].split(" CRASH ")[1].strip()
+            if outs[i].startswith("F "):
+                chk.fail_input(c.site, klass, d, outs[i].split(" CRASH ")[0], "killed by signal " + sig,
+                               "aliased call (%s): the process was killed by signal %s (the call on distinct objects returned) :: %s" % (pat, sig, outs[i]))
+            else:
+                chk.fail_input(c.site, "distinct objects", d, "a result", "killed by signal " + sig,
+                               "distinct objects: the process was killed by signal %s :: %s" % (sig, outs[i]))
+            continue
         if po is None:
             chk.fail_input(c.site, klass, d, "F ... | A ...", outs[i], "the harness could not run the operation")
             continue
